@@ -73,4 +73,64 @@ PROPS = {
                       "producer is refused while the first lives. Port level (Writer/Reader objects, one writer per service) is covered sequentially by C17/C08 harnesses, not here.",
         "level_note": "trusted: ixmc scheduler granularity, view model; bounded: 1 writer, <=2 readers, <=4 updates, value sizes 1 byte..9 words, PB<=3 quick / <=5 thorough",
     },
+    "C05": {
+        "level": "model_checking",
+        "technique": "stateless model checking of the real event notify/wait hand-shake (cal event::common) under a controlled scheduler with a model trigger; lost-wake-up = deadlock verdict",
+        "legs": [{"ws": "mc", "bin": "h_event"}],
+        "rule": "one case = (event-state type: bit set | counting bit set, notifier threads and the ids they notify, listener wait rounds: try/timed/blocking); "
+                "every schedule within the bounds is executed on the real EventImpl code; outcome = what every wait and every notify returned",
+        "assumptions": IXMC_ASSUME + ["the trigger back-end is a model (counter in a hooked atomic) implementing the repository's public trigger traits; the blocking behaviour of the real semaphore / socket triggers is represented by it", "SeqCst accesses are modelled as full synchronisation: store-buffering effects between the relaxed id activation and the SeqCst state hand-shake are not explored"],
+        "design_ref": "DESIGN.md §3.1, §4 C05",
+        "level_text": "All schedules of 1-3 notifier threads (1-2 notifies each, colliding ids) against a listener doing 2-3 wait rounds are executed on the "
+                      "real notify/drain_events code for both event-state types up to the stated bounds; oracles: no sleeping while an acknowledged notification is undelivered, "
+                      "every acknowledged id delivered by the final drain, no phantom ids, no more occurrences than sent.",
+        "level_note": "trusted: ixmc scheduler, the model trigger; bounded: <=3 notifiers x <=2 notifies, <=3 wait rounds, PB<=2 quick / <=4 thorough",
+    },
+    "C04": {
+        "level": "fault_enumeration",
+        "technique": "exhaustive crash-point enumeration of real processes under ptrace: SIGKILL before every state-changing system call of every lifecycle scenario, then survivor detection/cleanup/usability and leftover scan",
+        "legs": [{"ws": "seq", "bin": "ptx", "args": ["--prop", "C04"]}],
+        "rule": "see coverage.legs[0].rule",
+        "assumptions": [
+            "a crash is a SIGKILL delivered at the entry of a visible system call (open/creat/mkdir/rmdir/unlink/rename/link/chmod/fchmod/ftruncate/fcntl-lock/flock/mmap-shared/close/write/socket calls); the kernel's own atomicity of those calls is trusted",
+            "crashes between two shared-memory writes that are not separated by a system call are not enumerated by this leg",
+            "victim and survivor run as an unprivileged user (root bypasses the permission bits iceoryx2's creation protocol relies on)",
+            "one victim, one survivor, ipc service variant, the four messaging patterns with both port roles; creation_timeout configured to 500 ms",
+        ],
+        "design_ref": "DESIGN.md §3.2, §4 C04",
+        "level_text": "For every lifecycle scenario (4 messaging patterns x victim role x survivor shares the service or not) the victim process is killed "
+                      "before EVERY state-changing system call of node creation, service create/open, port creation, traffic and orderly shutdown (all "
+                      "points, not a sample); after each kill a surviving process must list the node as dead or absent, clean it up successfully, keep "
+                      "working with a new peer (or re-create the service), and nothing of the victim may remain in the domain's directories or /dev/shm.",
+        "level_note": "trusted: ptrace stepping, the visible-call filter, kernel atomicity of single system calls; not covered: crashes between plain shared-memory writes, a second crash during cleanup, more than two processes",
+    },
+    "C07": {
+        "level": "fault_enumeration",
+        "technique": "pause-and-probe plus crash-point enumeration under ptrace: at every state-changing system call of a node's life another process queries the liveness verdict while the victim is stopped (alive) and again after SIGKILL",
+        "legs": [{"ws": "seq", "bin": "ptx", "args": ["--prop", "C07"]}],
+        "rule": "see coverage.legs[0].rule",
+        "assumptions": [
+            "the probe (Node::list in another process) is one atomic block relative to the stopped victim: interleavings inside the monitor's own multi-step decision are not enumerated",
+            "victim and survivor run as an unprivileged user; creation_timeout configured to 500 ms",
+            "concurrent cleaners (2..4) are not enumerated by this leg",
+        ],
+        "design_ref": "DESIGN.md §3.2, §4 C07",
+        "level_text": "At every state-changing system call of node creation, service/port creation, traffic and shutdown of a victim process, a second process "
+                      "lists the nodes while the victim is stopped there (it must never be reported dead) and again after the victim was killed there (within "
+                      "the creation timeout it must be reported dead or absent, never alive/undefined for ever, and a dead node must be collectable).",
+        "level_note": "trusted: ptrace stepping; not covered: interleavings inside the monitor's decision tree, 2..4 concurrent cleaners, a cleaner that dies itself (planned legs, see DESIGN.md §7)",
+    },
+    "C13": {
+        "level": "model_checking",
+        "technique": "stateless model checking of the real zero-copy connection attach/detach/force-remove code over the process-local storage (its pthread mutex under scheduler control)",
+        "legs": [{"ws": "mc", "bin": "h_conn"}],
+        "rule": "one case = per-thread programs over {create_sender, create_receiver, use, drop, leak+force-remove} with matching or mismatching parameters (lifecycle cases), "
+                "or a sender thread (try_send, reclaim) against a receiver thread (receive, release) (data cases); every schedule within the bounds is executed on the real code",
+        "assumptions": IXMC_ASSUME + ["pthread mutexes are modelled by the scheduler (owner tracking, blocked threads are disabled); pthread_mutex_timedlock is modelled as a blocking lock", "the dynamic storage is the process-local one; the posix shared memory storage shares the connection code (common.rs) but not the storage code"],
+        "design_ref": "DESIGN.md §3.1, §4 C13",
+        "level_text": "All schedules of 2-3 threads attaching, using, detaching and force-removing the sender and receiver role of one connection name are executed on the "
+                      "real code up to the stated bounds: never two holders of one role, a live port always sits on an existing resource, mismatches are refused, after the "
+                      "last detach the resource is gone and the name reusable; plus the offset conservation of the data path (also part of C03).",
+        "level_note": "trusted: ixmc scheduler incl. its mutex model; bounded: <=3 threads, <=4 steps each, PB<=2 quick (1 for 3 threads) / <=3 thorough",
+    },
 }
